@@ -194,7 +194,7 @@ def K1():
 
 
 def K2():
-    """C12.R5 known finding: LOAD_ATTR operand not shifted on CPython >= 3.12."""
+    """C12.R5 (fixed by F17): LOAD_ATTR operand not shifted on CPython >= 3.12."""
     code = ("import awesomeyaml as ay\n"
             "print(dict(ay.Config.build(\"a: 1\\nb: 2\\nc: !eval 'a + b'\", raw_yaml=True, filename='x.yaml')))\n")
     rc, out, err = _sub(code)
@@ -224,7 +224,26 @@ def K4():
     return orig == rep, (t, orig, rep)
 
 
-ALL = ['F%d' % i for i in range(1, 17)] + ['K1', 'K2', 'K3', 'K4']
+def K5():
+    """C12.R7 known finding: stale exception table after instruction insertion."""
+    code = ("import awesomeyaml as ay\n"
+            "src = \"a: 1\\nc: !eval |\\n  try:\\n    x = a\\n    y = int('zz')\\n  except ValueError:\\n    y = -1\\n  y\"\n"
+            "print(ay.Config.build(src, raw_yaml=True, filename='x.yaml').c)\n")
+    rc, out, err = _sub(code)
+    return out == '-1', (rc, out, err[-120:])
+
+
+def K6():
+    """C12.R8 known finding: single-byte operands, no EXTENDED_ARG."""
+    code = ("import awesomeyaml as ay\n"
+            "names = ['n%d' % i for i in range(130)]\n"
+            "src = '\\n'.join('%s: %d' % (n, i) for i, n in enumerate(names)) + \"\\nc: !eval '\" + ' + '.join(names) + \"'\"\n"
+            "print(ay.Config.build(src, raw_yaml=True, filename='x.yaml').c)\n")
+    rc, out, err = _sub(code)
+    return out == str(sum(range(130))), (rc, out, err[-120:])
+
+
+ALL = ['F%d' % i for i in range(1, 17)] + ['K1', 'K2', 'K3', 'K4', 'K5', 'K6']
 
 if __name__ == '__main__':
     if len(sys.argv) == 3 and sys.argv[1] == '--one':
